@@ -23,7 +23,7 @@ ANCHORS = ["coxeter.shapes.polyhedron:Polyhedron.volume", "coxeter.shapes.polyhe
            "coxeter.extern.polytri.polytri:triangulate"]
 REQUIRED_MONITORS = ["Polyhedron.volume", "Polyhedron.surface_area", "Polyhedron.get_face_area", "Polyhedron.centroid",
                      "Polyhedron.inertia_tensor", "oracle-second-opinion:voxel-closed-form"]
-REQUIRED_CLASSES = ["kind:voxel", "kind:extrusion", "kind:perturbed", "kind:convexcopy", "genus:1", "not-star-shaped", "history:aged-object"]
+REQUIRED_CLASSES = ["kind:voxel", "kind:extrusion", "kind:perturbed", "kind:convexcopy", "genus:1", "not-star-shaped", "history:aged-object", "history:sibling-aged"]
 
 
 def ncases(tier):
@@ -155,8 +155,8 @@ def run_case(i, rng, rec, tier, state):
     # one case in four goes on with the same object: resized, moved, reoriented (diagonalize_inertia), to_hoomd through the
     # public API and read again; the postconditions judge against the current vertices and faces
     if i % 4 == 3:
-        hist = aging.age(s, rng, allow=("size", "move", "rigid"), reads=False)
-        rec.cls("history:aged-object")
+        hist, _sib = aging.age_or_sibling(s, rng, allow=("size", "move", "rigid"), reads=False)
+        rec.cls("history:aged-object" if _sib is None else "history:sibling-aged")
         if np.all(np.isfinite(np.asarray(s.vertices, float))):
             for m in ["volume", "surface_area", "centroid", "inertia_tensor"]:
                 try:
